@@ -15,11 +15,12 @@ STRINGS = ["", "a", "b", "ab", "ba", "abc", "a b", "x" * 40, "A", "0"]
 
 FAMILY_OPS = {
     "matrix": [(6, "m_new"), (8, "m_row"), (6, "m_slice"), (7, "m_set_s"), (7, "m_set_v"), (5, "m_set_m"), (5, "m_iop"), (4, "m_bad"),
-               (6, "get"), (5, "set_s"), (4, "slice"), (4, "mask"), (4, "iop"), (3, "mv"), (3, "ro"), (5, "release"), (2, "gcp")],
+               (6, "get"), (5, "set_s"), (4, "slice"), (5, "mask"), (4, "alias"), (4, "iop"), (3, "mv"), (3, "ro"), (6, "release"), (2, "gcp")],
     "array2d": [(6, "d_new"), (8, "d_item"), (8, "d_slice"), (7, "d_set_s"), (6, "d_set_a"), (5, "d_set_1d"), (5, "d_mask_get"),
                 (5, "d_mask_set"), (5, "d_iop"), (4, "d_bad"), (4, "release"), (2, "gcp")],
     "varray": [(6, "v_new"), (8, "v_row"), (6, "v_slice"), (7, "v_mask"), (7, "v_set_row"), (8, "v_set_v"), (5, "v_set_m"), (5, "v_size"),
-               (4, "v_resize"), (4, "v_ro"), (4, "v_bad"), (6, "get"), (5, "set_s"), (4, "iop"), (3, "ro"), (8, "release"), (3, "gcp")],
+               (4, "v_resize"), (4, "v_ro"), (4, "v_bad"), (6, "get"), (5, "set_s"), (4, "iop"), (3, "ro"), (5, "mask"), (4, "alias"), (3, "comp"),
+               (3, "slice"), (2, "mv"), (8, "release"), (3, "gcp")],
     "string": [(6, "s_new"), (9, "s_get"), (6, "s_slice"), (5, "s_mask"), (9, "s_set"), (5, "s_set_m"), (5, "s_set_v"), (4, "s_eq"),
                (4, "s_ro"), (4, "s_bad"), (6, "release"), (2, "gcp")],
 }
